@@ -113,6 +113,17 @@ func plainArgs(named []driver.NamedValue) ([]driver.Value, error) {
 	return out, nil
 }
 
+// fault consults the harness's fault hook for a parsed statement.
+func (e *Engine) fault(st *Stmt) *Fault {
+	e.mu.Lock()
+	h := e.hooks.Fault
+	e.mu.Unlock()
+	if h == nil {
+		return nil
+	}
+	return h(st)
+}
+
 // prepare parses and logs a statement. On a parse failure the statement is
 // logged as SInvalid and the engine is marked broken.
 func (c *conn) prepare(ctx context.Context, query string, named []driver.NamedValue) (*Stmt, error) {
@@ -147,9 +158,16 @@ func (c *conn) QueryContext(ctx context.Context, query string, named []driver.Na
 	if st.Kind != SSelect && st.Kind != SCount {
 		return nil, c.e.finish(st, &brokenError{"Query used with a statement that returns no rows"})
 	}
+	f := c.e.fault(st)
+	if f != nil && f.Err != nil {
+		return nil, c.e.finish(st, f.Err)
+	}
 	rs, err := c.e.execSelect(ctx, c.tx, st)
 	if err != nil {
 		return nil, c.e.finish(st, err)
+	}
+	if f != nil && f.RowsErr != nil {
+		rs.err, rs.errAfter = f.RowsErr, f.RowsErrAfter
 	}
 	c.e.finish(st, nil)
 	return &rows{rs: rs}, nil
@@ -159,6 +177,9 @@ func (c *conn) ExecContext(ctx context.Context, query string, named []driver.Nam
 	st, err := c.prepare(ctx, query, named)
 	if err != nil {
 		return nil, err
+	}
+	if f := c.e.fault(st); f != nil && f.Err != nil {
+		return nil, c.e.finish(st, f.Err)
 	}
 	if st.Kind == SSelect || st.Kind == SCount {
 		_, err := c.e.execSelect(ctx, c.tx, st)
@@ -224,6 +245,9 @@ func (r *rows) Close() error      { return nil }
 func (r *rows) Next(dest []driver.Value) error {
 	if r.i >= len(r.rs.rows) {
 		return io.EOF
+	}
+	if r.rs.err != nil && r.i >= r.rs.errAfter {
+		return r.rs.err
 	}
 	copy(dest, r.rs.rows[r.i])
 	r.i++
